@@ -219,6 +219,9 @@ class AccessMixin:
             k = z3.If(i < 0, n + i, i)
             self.raise_if(z3.Or(k < 0, k >= n), "IndexError", "strindex")
             return SV(mk_str(z3.SubString(s, k, 1)), Ty("str"))
+        top = getattr(self, "top_contract", None)
+        if tn in (None, "any") and top is not None and top.options.get("opaque_subscript"):
+            return self.fresh_sv("opaque_item", None)
         raise Unsupported(f"subscript on {base.ty}: {ast.unparse(node)[:60]}")
 
     def ev_slice(self, base, sl, fr, node):
